@@ -603,6 +603,8 @@ def run_sized(ctx, size):
     for v in ctx.violations:
         byk.setdefault(v.get("kind"), []).append(v)
     ctx.violations[:] = [v for k in byk for v in byk[k][:5]]
+    ctx.corr_broken[:] = list(dict.fromkeys(ctx.corr_broken))
+    ctx.broken[:] = list(dict.fromkeys(ctx.broken))
     ctx.corr_broken[:] = ctx.corr_broken[:12] + (["… %d more" % (len(ctx.corr_broken) - 12)] if len(ctx.corr_broken) > 12 else [])
     ctx.broken[:] = ctx.broken[:12]
     ex = lambda s, k: [x for x in list(s)[:k]]
